@@ -182,12 +182,18 @@ def _guard_resources():
 
 def _safe_execute(check, case, stats):
     import signal
+    began = time.time()
     try:
         signal.alarm(CASE_TIMEOUT_S)
         try:
             outcome = check.execute(case)
         finally:
             signal.alarm(0)
+            took = time.time() - began
+            if took > stats.counters.get('slowest_case_s', 0):
+                stats.counters['slowest_case_s'] = round(took, 1)
+                if took > 5:
+                    stats.notes.append('slow case (%.1f s): %s' % (took, canon(case)[:300]))
     except (CaseTimeout, MemoryError) as err:
         # a wall-clock or memory budget hit is inconclusive, never a verdict
         stats.counters['cases_abandoned'] = stats.counters.get('cases_abandoned', 0) + 1
